@@ -16,7 +16,8 @@ from vlib import chars
 STYLES = ['', 'a', 'A', 'm', 'h', 'r', 'ar', 'Ar', 'mr', 'hr', 'Ah', 'am']
 LOSSY = ['!s', '!b', '!z', 'r!s']
 
-EXOTIC = ['[PH5]', '[SH4]', '[SH6]', 'C[PH4]', 'C[SH3]', 'C[SH5]', '[AlH3]', '[BH3]', '[BH4-]', '[NH4+]', '[OH3+]', '[CH3]', '[CH2]', '[OH]',
+EXOTIC = ['FC(Cl)=[C@]=C(Br)I', 'FC(Cl)=[C@@]=C(Br)I', 'FC=[C@]=CCl', 'CC=[C@@]=CF', 'CC(F)=[C@]=C(C)CC', 'C/C=C=C=C/C', 'C/C=C=C=C\\C', 'F/C(Cl)=C=C=C(/Br)I', 'C1CCCC=[C@]=CCCC1',
+          'C[C@H](O)C=[C@@]=CC', 'CC=[C@]=CC/C=C/C', 'OC(C)=[C@]=C(C)C(=O)O', '[PH5]', '[SH4]', '[SH6]', 'C[PH4]', 'C[SH3]', 'C[SH5]', '[AlH3]', '[BH3]', '[BH4-]', '[NH4+]', '[OH3+]', '[CH3]', '[CH2]', '[OH]',
           'C[O]', 'C[N]C', '[CH3-]', '[CH3+]', '[13CH4]', '[2H]O[2H]', '[18OH2]', 'C[N+](C)(C)C', 'C[N+](=O)[O-]', 'CS(=O)(=O)C', 'CS(C)=O',
           'CP(=O)(O)O', 'O=P(Cl)(Cl)Cl', 'FS(F)(F)(F)(F)F', 'FCl(F)F', 'FI(F)(F)(F)F', 'F[Xe]F', '[Na+].[Cl-]', '[Fe+2]', '[Fe+3].[Cl-].[Cl-].[Cl-]',
           '[Cu+2]', 'C[Mg]Br', 'C[Li]', '[Li+].[AlH4-]', 'B(O)O', 'OB(O)c1ccccc1', 'c1ccc2ccccc2c1', 'c1ccc2[nH]ccc2c1', 'c1cc[nH]c1', 'c1ccoc1', 'c1ccsc1',
@@ -71,7 +72,7 @@ def project_under(m, order, maps=False):
               'h': chy.ival(m._atoms[n]._implicit_hydrogens), 'r': 1 if m._atoms[n]._is_radical else 0, 'p': chy.parity(m, n, idx), 'hm': 0}
              for n in order]
     bonds = sorted([min(idx[n], idx[k]), max(idx[n], idx[k]), int(b._order)] for n, k, b in m.bonds())
-    return {'atoms': atoms, 'bonds': bonds, 'ct': sorted(normct(q) for q in chy.cistrans(m, idx))}
+    return {'atoms': atoms, 'bonds': bonds, 'ct': sorted(normct(q) for q in chy.cistrans(m, idx)), 'ax': sorted(chy.axial(m, idx))}
 
 
 def normct(q):
@@ -112,7 +113,7 @@ def observe(case):
             rec['s'] = chars(str(m).split()[0])
     kind, val = chy.outcome(smiles, full)
     rec['bout'] = kind if kind != 'ok' else 'ok'
-    back = {'atoms': [], 'bonds': [], 'ct': []}
+    back = {'atoms': [], 'bonds': [], 'ct': [], 'ax': []}
     if kind == 'ok':
         b = val
         if case['form'] == 'thiele' and 'A' not in style:
@@ -172,6 +173,6 @@ def run(ck):
             ck.count('stereo-bonds', sum(len(r['ct']) for r in recs))
             ck.count('radical-texts', sum(1 for r in recs if r['cx']))
     ck.assumptions += ['aromatic texts are compared after kekule()+thiele() of the molecule read back (hydrogens of aromatic heteroatoms are unknown before)',
-                       'allene marks are not compared in this version (tetrahedral parity and double-bond same-side relations are)']
+                       'allene / cumulene marks are compared between the written molecule and the one read back (r-axis); the reference reader does not interpret them']
     return ck.finish(rule='one case = (molecule, form, style, random order); distinct by that tuple',
                      trusted=['TLC', 'spec/lang/SmilesRead.tla', 'spec/core/SmilesValence.tla', 'harness projection'])
